@@ -259,6 +259,24 @@ def _concat_parts(e: ast.AST) -> list[ast.AST]:
 SIGNATURE_MODE = [False]   # set while effect signatures are built: value-preserving conversions are transparent
 
 
+def _chain_choice(e: ast.AST) -> ast.IfExp | None:
+    """chain([c], X)[k] is c for k == 0 and X[k - 1] otherwise (X[:-1][j] is X[j])."""
+    if not (isinstance(e, ast.Subscript) and isinstance(e.value, ast.Call) and dotted(e.value.func) in ("itertools.chain", "chain")
+            and len(e.value.args) == 2 and isinstance(e.value.args[0], (ast.List, ast.Tuple)) and len(e.value.args[0].elts) == 1
+            and not isinstance(e.slice, (ast.Slice, ast.Tuple)) and not e.value.keywords):
+        return None
+    rest = e.value.args[1]
+    if isinstance(rest, ast.Subscript) and isinstance(rest.slice, ast.Slice) and rest.slice.lower is None and rest.slice.step is None:
+        rest = rest.value
+    km1 = ast.BinOp(left=e.slice, op=ast.Sub(), right=ast.Constant(1))
+    return ast.IfExp(test=ast.Compare(left=e.slice, ops=[ast.Eq()], comparators=[ast.Constant(0)]),
+                     body=e.value.args[0].elts[0], orelse=ast.Subscript(value=rest, slice=km1, ctx=ast.Load()))
+
+
+def _as_choice(e: ast.AST) -> ast.IfExp | None:
+    return e if isinstance(e, ast.IfExp) else _chain_choice(e)
+
+
 class PolyEnv:
     """Converts expressions to polynomials.
 
@@ -303,6 +321,12 @@ class PolyEnv:
                 return self.poly(e.operand)
             return self.atom(e)
         if isinstance(e, ast.BinOp):
+            lc_, rc_ = _as_choice(e.left), _as_choice(e.right)
+            if isinstance(e.op, (ast.Add, ast.Sub)) and (lc_ is None) != (rc_ is None) and not (_is_sequence(e.left) or _is_sequence(e.right)):
+                # a - (x if c else y) is (a - x) if c else (a - y): a choice is lifted out of an affine offset
+                c_ = rc_ if rc_ is not None else lc_
+                mk = (lambda v: ast.BinOp(left=e.left, op=e.op, right=v)) if rc_ is not None else (lambda v: ast.BinOp(left=v, op=e.op, right=e.right))
+                return self.poly(ast.IfExp(test=c_.test, body=mk(c_.body), orelse=mk(c_.orelse)))
             if isinstance(e.op, ast.Add) and (_is_sequence(e.left) or _is_sequence(e.right)):
                 # bytes / str / list concatenation: order matters
                 return Poly.sym("concat(" + ", ".join(self._arg(p) for p in _concat_parts(e)) + ")")
@@ -339,6 +363,17 @@ class PolyEnv:
             # divmod(a, b)[0] is a // b and [1] is a % b
             a_, b_ = e.value.args
             return self.poly(ast.BinOp(left=a_, op=ast.FloorDiv() if e.slice.value == 0 else ast.Mod(), right=b_))
+        if _chain_choice(e) is not None:
+            return self.poly(_chain_choice(e))
+        if isinstance(e, ast.Subscript) and isinstance(e.value, ast.Dict) and isinstance(e.slice, ast.Constant):
+            # {**m, 'k': v}['k'] is v (the last binding of a literal key wins; a later ** splat may rebind it)
+            for k_, v_ in reversed(list(zip(e.value.keys, e.value.values))):
+                if k_ is None:
+                    break
+                if isinstance(k_, ast.Constant) and k_.value == e.slice.value:
+                    return self.poly(v_)
+                if not isinstance(k_, ast.Constant):
+                    break
         if isinstance(e, ast.Subscript) and isinstance(e.value, ast.Call) and dotted(e.value.func) == "range" and 1 <= len(e.value.args) <= 3 \
                 and not isinstance(e.slice, (ast.Slice, ast.Tuple)):
             # range(a, b, s)[k] is a + s*k
